@@ -1519,12 +1519,17 @@ func normStmts(st []string) []string {
 	}
 	writes := false
 	for _, s := range st {
-		if isWrite(s) {
+		if isWrite(s) && !strings.Contains(s, "delete from rkey where etime <= ?") {
 			writes = true
 		}
 	}
 	var out []string
 	for _, s := range st {
+		if strings.Contains(s, "delete from rkey where etime <= ?") {
+			// the traced database's own background reclamation ticking while the command ran
+			// (runs longer than a minute): no wire command issues this statement
+			continue
+		}
 		if writes && !isWrite(s) {
 			continue
 		}
